@@ -9,7 +9,7 @@
    timer (context.WithTimeout, Client.Timeout, ResponseHeaderTimeout) the timer may fire before
    the peer reached its stall point: the allowed set is the union over all earlier positions. *)
 From Coq Require Import List Bool Arith.
-From ReqV Require Export Lib.Bytes Model.Lifecycle Model.RetryLife Model.LifecycleH2 Model.LifecycleH3.
+From ReqV Require Export Lib.Bytes Model.Lifecycle Model.RetryLife Model.LifecycleH2 Model.LifecycleH3 Model.Bystander.
 Import ListNotations.
 
 Inductive ocall := OResp | OErr (e : err).
@@ -45,6 +45,10 @@ Inductive c08_case :=
 | H1Case (c : cfg1) (auto union : bool) (pre racy inj post : list label) (o : obs1)
 | H2Case (has_body union : bool) (pre racy inj : list label2) (o : obs2)
 | H3Case (c : cfg3) (union : bool) (pre racy inj : list label3) (o : obs3)
+(* bystanders *)
+| QueueCase (evs : list qlabel) (served : list nat) (idle : nat)
+| WindowCase (w : Z) (frames : list Z) (credited : Z)
+| ShareCase (c : cause) (b_ok : bool)
 (* retry layer: labels up to and including the injection; observed: the call's error and the
    number of attempts that reached the peer *)
 | RetryCase (zero : bool) (max : option nat) (ls : list rlabel) (o_err : ocall) (o_seen : nat).
@@ -330,6 +334,19 @@ Definition c08_check (k : c08_case) : bool :=
       match flat_map (fun sc => some_or_nil (exec3 c [init3 c] sc)) (scripts3 union pre racy inj) with
       | [] => false
       | fs => existsb (matches3 o) fs
+      end
+  | QueueCase evs served idle =>
+      let s := qrun false evs in
+      list_eqb Nat.eqb (q_served s) served && Nat.eqb (q_idle s) idle && negb (has_live (q_queue s))
+  | WindowCase w frames credited =>
+      match stray_frames true (win_init w) frames with
+      | Some (_, cr, _) => Z.eqb cr credited
+      | None => false
+      end
+  | ShareCase c b_ok =>
+      match shrun true shinit [SCancelA c; SDialFails; SBSees; SBDialOk] with
+      | Some s => match s_b s with BRet None => b_ok | _ => negb b_ok end
+      | None => false
       end
   | RetryCase zero max ls oe seen =>
       match rrunz zero true max rinit ls with
